@@ -316,7 +316,16 @@ func Discharge(results []*FnResult, opts DischargeOpts) (stats map[string]int, s
 			if j.c.usesLambda {
 				solvers = solvers[:2] // cvc5 rejects lambda array terms
 			}
-			r := Race(path, opts.Timeout, solvers)
+			// stage 1: the usually-fastest solver alone (keeps the machine from being oversubscribed);
+			// stage 2: the full portfolio raced with the full timeout
+			stage1 := opts.Timeout / 3
+			if stage1 < 4*time.Second {
+				stage1 = 4 * time.Second
+			}
+			r := Race(path, stage1, solvers[:1])
+			if r.Status != "sat" && r.Status != "unsat" {
+				r = Race(path, opts.Timeout, solvers)
+			}
 			if r.Status == "unsat" && opts.Cross {
 				// second opinion from a different solver
 				var others []SolverSpec
@@ -331,6 +340,15 @@ func Discharge(results []*FnResult, opts DischargeOpts) (stats map[string]int, s
 					r.Output = "solvers disagree: " + r.Solver + " unsat, " + r2.Solver + " sat"
 				} else if r2.Status == "unsat" {
 					r.Solver += "+" + r2.Solver
+				}
+			}
+			if r.Status == "sat" && !j.o.MustBeSat && j.c.sizeHints != "" {
+				// prefer a small model (replayable): same query plus size bounds on slice inputs
+				hpath := strings.TrimSuffix(path, ".smt2") + "__small.smt2"
+				os.WriteFile(hpath, []byte(j.c.Script(j.inst, true, j.c.sizeHints)), 0o644)
+				if rh := Race(hpath, opts.Timeout, solvers[:1]); rh.Status == "sat" {
+					r.Output = rh.Output
+					path = hpath
 				}
 			}
 			mu.Lock()
@@ -361,7 +379,8 @@ func Discharge(results []*FnResult, opts DischargeOpts) (stats map[string]int, s
 				if r.Status != "unsat" {
 					if r.Status == "sat" {
 						o.Status = "failed"
-						o.Model = r.Output
+						o.Model = "sat\n" + fmtModel(fr.Ctx.queries, parseValues(r.Output, fr.Ctx.queries))
+						o.ModelVals = parseValues(r.Output, fr.Ctx.queries)
 						o.Solver = r.Solver
 						o.Detail += " | smt: " + r.Path
 					} else if o.Status != "failed" {
